@@ -37,6 +37,12 @@ Next ==
      \/ Fill(N("if", 0), <<S, S, S>>)
      \/ (S < MaxScope /\ Fill(N("mopt", 0), <<S, S + 1, S>>))      \* match e with | Some v -> a | None -> b
 Spec == Init /\ [][Next]_vars
+\* Skeleton start (generalisation-sensitive family, C02):  (\x -> let g = \y -> [H] in [K]) [A]
+\* H sees x, y;  K sees x, g;  A is closed.  A checker that generalises g over a variable tied to x's type accepts
+\* programs of this family which go wrong.
+SkelInit == prefix = <<N("app", 0), N("lam", 0), N("let", 0), N("lam", 0)>> /\ pending = <<2, 2, 0>>
+SkelSpec == SkelInit /\ [][Next]_vars
+EmittedRaw == (Emit /\ pending = <<>>) => PrintT(<<"TERM", ToJson([p |-> [j \in DOMAIN prefix |-> <<prefix[j].g, prefix[j].a>>]])>>)
 
 Arity(g) == CASE g \in {"var", "int", "str", "tt", "none"} -> 0
               [] g \in {"lam", "recx", "px", "py", "some"} -> 1
